@@ -51,6 +51,12 @@ func genRetryCfg(r *Rng, mode string) string {
 	maxA := r.Range(1, 5)
 	base := Pick(r, []int64{0, 1, 500, 1000, 2000, 50_000})
 	maxD := Pick(r, []int64{0, 1000, 3000, 20_000, 200_000})
+	if r.Chance(1, 6) {
+		// caps that are not a whole number of milliseconds (1.5 ms, 0.8 ms, 2.6 ms) reached from a base near them: any rounding
+		// of the wait to a coarser unit after the cap was applied shows as a wait above the cap
+		base = Pick(r, []int64{700_000, 1_000_000, 1_300_000})
+		maxD = Pick(r, []int64{1_500_000, 800_000, 2_600_000, 1_499_999})
+	}
 	factor := Pick(r, []float64{1, 1.5, 2, 3, 10, 1.1, 1.0000001, 2.5, 1e200})
 	if mode == "excluded" {
 		// configurations NewDatabaseRecovery has to sanitise (alone and combined)
